@@ -82,3 +82,15 @@ Example ex_interleaved :
   scan_multi None (interleave [0; 1; 1; 0; 0; 1]%nat (map segments [l; l])) = Some None
   /\ length (interleave [0; 1; 1; 0; 0; 1]%nat (map segments [l; l])) = (2 * length l)%nat.
 Proof. vm_compute. split; reflexivity. Qed.
+
+(** cancellation: the caller drops the future while it is suspended at await site 4 (after its first poll).  The plain
+    twin drops p3 and p0; the instrumented one drops p0 (captured by the instrumented future) inside the span, as
+    `Instrumented::drop` enters it, closes the span, then drops p3 (held by the outer frame); no event; same multiset. *)
+Definition args_cancel (p : N) : N := match p with 2 => 1 | 1004 => 1 | _ => 0 end.
+Example ex_cancelled :
+  run col_all args_cancel f_async TPlain = ([ECreated; EUse 0; EYield 4; EPending; EXDrop 3; EXDrop 0], RCancelled)
+  /\ snd (run col_all args_cancel f_async (expand at1 f_async)) = RCancelled
+  /\ skipn 10 (fst (run col_all args_cancel f_async (expand at1 f_async)))
+     = [TEnter; EUse 0; EYield 4; TExit; EPending; TEnter; EXDrop 0; TExit; TClose; EXDrop 3]
+  /\ scan false (fst (run col_all args_cancel f_async (expand at1 f_async))) = Some false.
+Proof. vm_compute. repeat split. Qed.
